@@ -153,6 +153,8 @@ Definition V_DERP := bytes_of_string "derp".
 Definition PROXY_AUTHORIZATION := bytes_of_string "proxy-authorization".
 Definition PROXY_CONNECTION := bytes_of_string "proxy-connection".
 Definition K_VIA := bytes_of_string "Via".
+Definition L_VIA := bytes_of_string "via".
+Definition COMMA_SP := bytes_of_string ", ".
 
 Definition version_is (p : parser) (v : bytes) : bool := option_eqb bytes_eqb (version p) (Some v).
 
@@ -238,9 +240,15 @@ Definition loop_fuel (s : hstate) (raw : bytes) : nat := S (buffer_len (pipeline
    ====================================================================================== *)
 
 (* _queue_request_for_upstream: the request after del_headers/add_headers and request.build(...) *)
+(* via = b'1.1 ' + agent; if request.has_header(b'via'): via = request.header(b'via') + b', ' + via *)
+Definition via_for (c : cfg) (r : parser) : bytes :=
+  if has_header r L_VIA then
+    match header r L_VIA with Ok old => old ++ COMMA_SP ++ via_value c | Err _ => via_value c end
+  else via_value c.
+
 Definition rebuild_for_upstream (c : cfg) (tunnel : bool) (req : parser) : parser * result bytes :=
   let r1 := del_header (del_header req PROXY_AUTHORIZATION) PROXY_CONNECTION in
-  let r2 := if tunnel then r1 else add_header r1 K_VIA (via_value c) in
+  let r2 := if tunnel then r1 else add_header r1 K_VIA (via_for c r1) in
   (r2, build [] r2 (disable_headers c) false None).
 
 (* connect_upstream: `if host and port`, the port range check, TcpServerConnection(text_(host), port).connect() *)
@@ -289,7 +297,7 @@ Definition proxy_round (c : cfg) (s : hstate) (raw : bytes) : hstate * result (o
   | Some k =>
       if conn_closed k s then (s, Ok None) else
       if is_complete (request s) && negb (is_https_tunnel (request s)) then
-        if match pipeline_request s with Some pr => is_connection_upgrade pr | None => false end
+        if match pipeline_request s with Some pr => is_complete pr && is_connection_upgrade pr | None => false end
         then (up_queue k raw s, Ok None)
         else pipeline_round (proxy_forward c k) s raw
       else (up_queue k raw s, Ok None)
